@@ -143,7 +143,11 @@ for cname in sorted(classes):
         if isinstance(v, (bool, int, float, type(None), np.integer, np.floating)) and not isinstance(getattr(type(obj), a, None), property):
             tun.append(a)
     src = inspect.getsource(cls.from_dict)
-    keys = list(dict.fromkeys(re.findall(r'kwargs\["(\w+)"\]', src)))
+    # nested fields = the kwargs entries whose emitted value is itself a serialised component (a dict with a "name", or a list of them),
+    # in the order in which from_dict first mentions them; plain conversions such as int(kwargs["interval"]) are not nested fields
+    def _nested(v):
+        return (isinstance(v, dict) and "name" in v) or (isinstance(v, (list, tuple)) and len(v) > 0 and all(isinstance(x, dict) and "name" in x for x in v))
+    keys = [k for k in dict.fromkeys(re.findall(r'kwargs\["(\w+)"\]', src)) if _nested(d.get("kwargs", {}).get(k))]
     protos = re.findall(r"get_typed_class\(\s*[^,]+,\s*(\w+)\s*\)", src)
     if len(keys) != len(protos):
         fail(f"translator: cannot pair nested fields {keys} with protocols {protos} in {cname}.from_dict")
